@@ -165,3 +165,207 @@ func handPrecertLeaf(ts uint64, issuerKeyHash [32]byte, tbs []byte) []byte {
 	b = append(b, tbs...)
 	return append(b, 0, 0)
 }
+
+// ---- a TBSCertificate taken apart by hand (reference of the pre-issuer route) ----
+
+var (
+	oidPoisonDER = []byte{0x2b, 0x06, 0x01, 0x04, 0x01, 0xd6, 0x79, 0x02, 0x04, 0x03} // 1.3.6.1.4.1.11129.2.4.3
+	oidAKIDER    = []byte{0x55, 0x1d, 0x23}                                           // 2.5.29.35
+)
+
+// rawExt is one Extension: the content octets of its extnID, the octets between extnID and extnValue
+// (empty, or the BOOLEAN critical exactly as it was written) and the content of the extnValue OCTET STRING.
+type rawExt struct {
+	oid, crit, val []byte
+}
+
+func (x rawExt) encode() []byte {
+	return tlv(0x30, append(append(tlv(0x06, x.oid), x.crit...), tlv(0x04, x.val)...))
+}
+
+// rawTBS is a TBSCertificate as the list of its fields (complete TLVs, extensions field excluded)
+// and its extensions.
+type rawTBS struct {
+	head    [][]byte
+	exts    []rawExt
+	hasExts bool
+}
+
+func parseRawTBS(tbs []byte) (t rawTBS, ok bool) {
+	tag, body, rest, ok := readTLV(tbs)
+	if !ok || tag != 0x30 || len(rest) != 0 {
+		return t, false
+	}
+	for len(body) > 0 {
+		ft, c, r, ok := readTLV(body)
+		if !ok {
+			return t, false
+		}
+		field := body[:len(body)-len(r)]
+		body = r
+		if ft != 0xa3 {
+			t.head = append(t.head, field)
+			continue
+		}
+		lt, list, lr, ok := readTLV(c)
+		if !ok || lt != 0x30 || len(lr) != 0 || len(body) != 0 {
+			return t, false
+		}
+		t.hasExts = true
+		for len(list) > 0 {
+			et, e, r2, ok := readTLV(list)
+			if !ok || et != 0x30 {
+				return t, false
+			}
+			list = r2
+			ot, oid, after, ok := readTLV(e)
+			if !ok || ot != 0x06 {
+				return t, false
+			}
+			x := rawExt{oid: oid}
+			vt, v, vr, ok := readTLV(after)
+			if ok && vt == 0x01 {
+				x.crit = after[:len(after)-len(vr)]
+				vt, v, vr, ok = readTLV(vr)
+			}
+			if !ok || vt != 0x04 || len(vr) != 0 {
+				return t, false
+			}
+			x.val = v
+			t.exts = append(t.exts, x)
+		}
+	}
+	return t, true
+}
+
+func (t rawTBS) encode() []byte {
+	var body []byte
+	for _, f := range t.head {
+		body = append(body, f...)
+	}
+	if t.hasExts {
+		var list []byte
+		for _, x := range t.exts {
+			list = append(list, x.encode()...)
+		}
+		body = append(body, tlv(0xa3, tlv(0x30, list))...)
+	}
+	return tlv(0x30, body)
+}
+
+// issuerAt is the position of the issuer among the fields: after [0] version (when present),
+// serialNumber and signature.
+func (t rawTBS) issuerAt() int {
+	if len(t.head) > 0 && t.head[0][0] == 0xa0 {
+		return 3
+	}
+	return 2
+}
+
+// certTBS is the TBSCertificate of a DER Certificate.
+func certTBS(der []byte) []byte {
+	tag, body, _, ok := readTLV(der)
+	if !ok || tag != 0x30 {
+		return nil
+	}
+	_, _, r, ok := readTLV(body)
+	if !ok {
+		return nil
+	}
+	return body[:len(body)-len(r)]
+}
+
+// handPreIssuerTBS states RFC 6962 section 3.2 for a precertificate signed by a precertificate signing
+// certificate, on the octets: the TBSCertificate of the entry is the precertificate's TBSCertificate
+// without its (one) poison extension, with the issuer field replaced by the issuer field of the signing
+// certificate and the VALUE of the authority key identifier extension replaced by the value of the signing
+// certificate's authority key identifier; every other octet (every other field, every other extension,
+// the order, the critical flag of each extension including the authority key identifier's) stays what it
+// was, only the enclosing lengths are written anew.  Where one side has no authority key identifier the
+// convention of BuildPrecertTBS applies: the precertificate's is removed when the signing certificate has
+// none, and a non-critical one is appended at the end when only the signing certificate has one.
+func handPreIssuerTBS(precertTBS, preIssuerDER []byte) ([]byte, bool) {
+	t, ok := parseRawTBS(precertTBS)
+	p, ok2 := parseRawTBS(certTBS(preIssuerDER))
+	if !ok || !ok2 || len(t.head) <= t.issuerAt() || len(p.head) <= p.issuerAt() {
+		return nil, false
+	}
+	var kept []rawExt
+	poison := 0
+	for _, x := range t.exts {
+		if bytes.Equal(x.oid, oidPoisonDER) {
+			poison++
+			continue
+		}
+		kept = append(kept, x)
+	}
+	if poison != 1 {
+		return nil, false
+	}
+	t.exts = kept
+	t.head = append([][]byte{}, t.head...)
+	t.head[t.issuerAt()] = p.head[p.issuerAt()]
+	var aki []byte
+	hasAKI := false
+	for _, x := range p.exts {
+		if bytes.Equal(x.oid, oidAKIDER) {
+			aki, hasAKI = x.val, true
+			break
+		}
+	}
+	at := -1
+	for k, x := range t.exts {
+		if bytes.Equal(x.oid, oidAKIDER) {
+			at = k
+			break
+		}
+	}
+	switch {
+	case at >= 0 && hasAKI:
+		t.exts[at].val = aki
+	case at >= 0:
+		t.exts = append(t.exts[:at:at], t.exts[at+1:]...)
+	case hasAKI:
+		t.exts = append(t.exts, rawExt{oid: oidAKIDER, val: aki})
+	}
+	return t.encode(), true
+}
+
+// handSCTSigInput is the input of the signature of an SCT over a precertificate entry (RFC 6962
+// section 3.2, digitally-signed struct with signature_type certificate_timestamp).
+func handSCTSigInput(ts uint64, issuerKeyHash [32]byte, tbs, extensions []byte) []byte {
+	b := []byte{0, 0} // sct_version v1, signature_type certificate_timestamp
+	b = binary.BigEndian.AppendUint64(b, ts)
+	b = append(b, 0, 1) // entry_type precert_entry
+	b = append(b, issuerKeyHash[:]...)
+	b = append(b, byte(len(tbs)>>16), byte(len(tbs)>>8), byte(len(tbs)))
+	b = append(b, tbs...)
+	b = binary.BigEndian.AppendUint16(b, uint16(len(extensions)))
+	return append(b, extensions...)
+}
+
+// oidArcs decodes the content octets of an OBJECT IDENTIFIER (X.690 8.19).
+func oidArcs(c []byte) []int {
+	var out []int
+	v := 0
+	for _, b := range c {
+		v = v<<7 | int(b&0x7f)
+		if b&0x80 != 0 {
+			continue
+		}
+		if len(out) == 0 {
+			switch {
+			case v < 40:
+				out = append(out, 0, v)
+			case v < 80:
+				out = append(out, 1, v-40)
+			default:
+				out = append(out, 2, v-80)
+			}
+		} else {
+			out = append(out, v)
+		}
+		v = 0
+	}
+	return out
+}
